@@ -171,6 +171,22 @@ PROPS["C02"] = dict(
     thorough=dict(shards=16, timeout=2400),
 )
 
+PROPS["C06"] = dict(
+    pkg="c06", level="exploration", design_ref="DESIGN.md section 3, C06",
+    technique="enumerated table of wire token spellings x destination types x container positions x modes, written by hand from the grammar; expectation function (exact / must-reject / unsettled) from the statement; metamorphic position-independence check",
+    level_text=("Every token spelling of the grammar (digit/i/l integers at every width boundary, doubles in several decimal spellings, NaN/Inf, e/s\"\" and u/s1 strings, "
+                "digit strings, bytes, guids, ten date/time forms, lists and maps in alternative spellings, objects with extra/missing/reordered fields, maps for objects) is "
+                "decoded into every destination type at every position. Three oracles: a destination that can hold the denoted value exactly must end up holding exactly it; "
+                "one that clearly cannot must report an error (a wrong value with a nil error is the violation); and the outcome for one (token, type) must be the same in all "
+                "seven positions, which needs no expectation table and exposes a wrong entry in a dispatch table."),
+    level_note="Where the statement does not settle a conversion (bool from int, string from double, time from int, ...) the expectation is 'unsettled' and only position independence is asserted; values inside the enumerated table are fixed boundary values, random values are covered by C01.",
+    rule=("token-matrix: all token spellings x 48 destination types x {simple, reference} x 7 positions, enumerated; objects: class layouts x struct/map/interface destinations. "
+          "Non-trivial = every case (each is a distinct (spelling, destination, mode) cell; spellings the encoder never emits are labelled in the class histogram). Distinct by cell text."),
+    assumptions=["decoder settings are the defaults (LongType int, RealType float64, MapType map[interface{}]interface{}) unless a sub-check says otherwise"],
+    quick=dict(shards=4, timeout=600),
+    thorough=dict(shards=16, timeout=2400),
+)
+
 # properties not claimed yet (kept current as checks land)
 _ALL = ["C%02d" % i for i in range(1, 21)]
 NOT_APPLICABLE = [dict(property_id=p, reason="check not built yet in this revision (planned in DESIGN.md section 3); not a limit of the technique")
